@@ -163,6 +163,14 @@ class FuncC:
         self.ghost_entry_l.append(stmt)
         return self
 
+    def ghost_at_write(self, field, stmt):
+        """ghost assignment executed together with (just before) every code write of attribute `field` in this function; the
+        value being written is visible as `_value` (atomic update of a real flag and its ghost shadow)"""
+        if not hasattr(self, "ghost_writes"):
+            self.ghost_writes = {}
+        self.ghost_writes.setdefault(field, []).append(stmt)
+        return self
+
     def at_yield(self, havoc=(), assume=()):
         self.at_yield_havoc.extend(havoc)
         self.at_yield_assume.extend(assume)
@@ -251,6 +259,7 @@ class Unit:
         self.guards = {}          # (class, field) -> (condition, label)
         self.volatile = set()     # (class, field) read with an environment step first
         self.write_guarantees = {}   # (class, field) -> [(expr, label)] obligations after each write
+        self.guarantee_exempt = set()   # qualnames of functions that run while no other thread exists (their post states the initial invariant)
         self.interference = None  # thread-modular environment step (DESIGN §5): see interfere()
         self.env = {}             # dotted name -> trusted FuncC (library functions)
         self.assumptions = []     # free text, goes to the evidence
